@@ -27,7 +27,7 @@ VERSION = 1
 BUDGET = {'quick': 50, 'thorough': 600}
 CHUNK = {'quick': 10, 'thorough': 20}
 RULE = ('one case = one seeded history (4-40 ops: store, bulk store, overwrite, remove, load, reopen, defrag with seeded '
-        'thresholds) on compact v1 or v2, sequential or split over 2-4 concurrently scheduled writers (processes with their own cache objects, or threads sharing one); about one case in 100 instead works on a bundle extended beyond 4 GiB (sparse file on tmpfs, outside SimFS) (incl. a contention form: 3-4 writers storing into one bundle, retry timers firing while the holder still runs); '
+        'thresholds - also dry, or with one failing open()) on compact v1 or v2, sequential or split over 2-4 concurrently scheduled writers (processes with their own cache objects, or threads sharing one); about one case in 100 instead works on a bundle extended beyond 4 GiB (sparse file on tmpfs, outside SimFS) (incl. a contention form: 3-4 writers storing into one bundle, retry timers firing while the holder still runs); '
         'non-trivial = the history overwrote or removed a stored tile (fragmentation exists) and was parsed/defragmented '
         'afterwards, or (concurrent) two processes overlapped inside one bundle; distinct = distinct hash of '
         '(version, operations, schedule event log)')
